@@ -21,6 +21,7 @@ import (
 	"github.com/deadsy/sdfx/render"
 	"github.com/deadsy/sdfx/sdf"
 	v3 "github.com/deadsy/sdfx/vec/v3"
+	"github.com/deadsy/sdfx/vec/v3i"
 )
 
 type faultVec struct {
@@ -173,6 +174,13 @@ func c12Child(args []string) error {
 			render.ToSTL(bx, path, render.NewMarchingCubesUniform(cells))
 		case strings.HasPrefix(real, "mcu:") && sink == "3mf":
 			render.To3MF(bx, path, render.NewMarchingCubesUniform(cells))
+		case strings.HasPrefix(real, "mcol"):
+			// a dense lattice of small balls: nearly every cube of every octree level holds surface (far more
+			// simultaneously pending cubes than a compact solid ever produces)
+			fmt.Sscanf(real[5:], "%d", &cells)
+			ball, _ := sdf.Sphere3D(0.3)
+			lat := sdf.Array3D(ball, v3i.Vec{X: dims[0], Y: dims[1], Z: dims[2]}, v3.Vec{X: 1, Y: 1, Z: 1})
+			render.ToSTL(lat, path, render.NewMarchingCubesOctree(cells))
 		case strings.HasPrefix(real, "mco:"):
 			render.ToSTL(bx, path, render.NewMarchingCubesOctree(cells))
 		case strings.HasPrefix(real, "msu:"):
@@ -241,6 +249,7 @@ func runFault(v faultVec, dir string, watchdog time.Duration) faultObs {
 	}()
 	timer := time.NewTimer(watchdog)
 	defer timer.Stop()
+	seenAtLastTick := 0
 	open := true
 	timedOut := false
 	for open && !timedOut {
@@ -265,6 +274,13 @@ func runFault(v faultVec, dir string, watchdog time.Duration) faultObs {
 				}
 			}
 		case <-timer.C:
+			// the watchdog measures SILENCE, not duration: a render that is still sending and receiving batches is
+			// slow, not stuck (up to 4 minutes in all)
+			if len(o.Events) > seenAtLastTick && time.Since(t0) < 4*time.Minute {
+				seenAtLastTick = len(o.Events)
+				timer.Reset(watchdog)
+				break
+			}
 			timedOut = true
 		}
 	}
@@ -442,6 +458,13 @@ func c12Goroutines(args []string) error {
 		{"ToDXF/devfull", func(i int) { render.ToDXF(ci, "/dev/full", render.NewMarchingSquaresUniform(40)) }},
 		{"ToSVG/devfull", func(i int) { render.ToSVG(ci, "/dev/full", render.NewMarchingSquaresQuadtree(40)) }},
 		{"To3MF/devfull", func(i int) { render.To3MF(sp, "/dev/full", render.NewMarchingCubesUniform(12)) }},
+		// a pause between renders (workers or writers that give up when idle must come back)
+		{"history/uniform,pause 2.6 s,uniform", func(i int) {
+			if i == 3 || i == 9 {
+				time.Sleep(2600 * time.Millisecond)
+			}
+			render.ToTriangles(sp, render.NewMarchingCubesUniform(9))
+		}},
 		// histories: a failed render followed by a good one, over and over (state left behind by the failure -
 		// a lock still held, a goroutine still parked - shows in the NEXT render or in the count)
 		{"history/To3MF/devfull,good", func(i int) {
